@@ -195,7 +195,7 @@ Definition cstep (p : program) (d : decl) (rp r : impl) : list N :=
          | DObj rf0 PNull _, DObj rf pv None =>
              match top_target rf0, top_target rf with
              | Some D0, Some D =>
-                 if path_eqb (fkey D0) (fkey D) then
+                 if path_eqb (fkey D0) (fkey D) && negb (match pv with PNull => true | _ => false end) then
                    let K := fkey D in
                    flag (match gfind K (gobjs b) with
                          | Some o =>
